@@ -12,7 +12,7 @@ from harness.common import ImplRaised, drv, guarded, impl, run_check
 
 PID = "C07"
 THEOREMS = ["merger_eq_spec", "mergerFrom_spec", "merge_buffer_independent", "merge_comm", "merge_assoc", "merge_sum",
-            "merge_pointwise", "merger_stream_sorted"]
+            "merge_pointwise", "merger_stream_sorted", "breakLoop_spec", "breakpoints_contract"]
 LEVELS = {"merge": "top", "refuses": "top", "limits": "top", "breakpoints": "unit", "agg": "top"}
 DESCRIBE = {
     "merge": "cooler.merge_coolers(out, inputs, mergebuf) for EVERY mergebuf 1..sum(nnz)+1 and every order of the inputs, plus a "
